@@ -70,3 +70,17 @@ Definition api_compile_only (w : world) (src : str) : obs :=
   | Ok _ => OOk []
   | other => obs_of_compile other
   end.
+
+(* FromFile + Execute, together with the loaders' access log (oldest first) of a successful run *)
+Definition api_render_file_log (w : world) (name : str) (ctx : list (str * cval)) : obs * option (list logent) :=
+  match compile_file (world_senv w) big_fuel name g0 with
+  | Ok (t, g) =>
+      match exec_template_unbuffered (world_senv w) (w_globals w) big_fuel (mkM [] [] g) t ctx with
+      | (o, Ok st) => (OOk o, Some (rev (g_log (ms_g st))))
+      | (o, Err k) => (OExecErr k o, None)
+      | (_, Unmod) => (OUnmod, None)
+      | (_, Fuel) => (OFuel, None)
+      | (_, Panic s) => (OPanic s, None)
+      end
+  | other => (obs_of_compile other, None)
+  end.
